@@ -119,7 +119,9 @@ pub fn c08(args: &Args, log: &mut Log) {
     let cwd = cwd_path.to_string_lossy().to_string();
     let froms = rel_files(depth, FROM_FILES);
     let imports = rel_files(depth, IMPORT_FILES);
-    let mut rng = Rng::new(args.seed);
+    let shard = args.num("shard", 0) as usize;
+    let shards = args.num("shards", 1).max(1) as usize;
+    let mut rng = Rng::new(args.seed ^ ((shard as u64) << 32));
     let mut total = 0u64;
     let mut ok_results = 0u64;
     let mut err_results = 0u64;
@@ -129,7 +131,10 @@ pub fn c08(args: &Args, log: &mut Log) {
     let mut sampled = vec![];
     let mut fs_checked = 0u64;
     for base in BASES {
-        for f in &froms {
+        for (fi, f) in froms.iter().enumerate() {
+            if fi % shards != shard {
+                continue;
+            }
             for i in &imports {
                 let from = join(base, f);
                 let import = join(base, i);
